@@ -9,6 +9,8 @@ TECH = "runtime monitoring: generated workload on the real code + %s"
 CHECKS = {
     "C01": ("round trip generate->parse->generate observed on generated programs through both entry routes (text, S-expression build); equality judged by the library's == and by the harness's reference meaning and declarations",
             "reference-model oracle (meaning normal form) and byte comparison of regenerated text"),
+    "C02": ("generated derivations rendered with random layouts (separators, padding, comments) must yield the derivation's S-expression and equal circuits; token-level near-misses judged against an independent predictive parser for accept/reject, tree and error position",
+            "reference-model oracle (independent lexer + predictive parser) + metamorphic layouts"),
     "C03": ("emulator state vectors and probabilities compared with an independent tensor-contraction simulator on executable programs over a harness-supplied native gate set; observed unitary-evaluation stream compared with the reference gate stream",
             "reference-model oracle (independent simulator) + event log of unitary evaluations"),
     "C04": ("expand_macros output compared with reference call-by-substitution on the input IR; header/annotation preservation; wrong-arity probes built from core objects",
@@ -17,14 +19,22 @@ CHECKS = {
             "reference-model oracle (let evaluation in an environment)"),
     "C06": ("bounded-exhaustive alias chains (all in-range start/stop/step per level, literal/defaulted/let-valued bounds, every index, five statement positions); expected physical index from model arithmetic; five consumers compared (resolve_qubit, fill_in_map, used-qubit analysis, emulator, pyGSTi label)",
             "reference arithmetic on declarations + consumer agreement monitors"),
+    "C07": ("meaning read from the parsed IR compared with the model's lexical binding, macros unexpanded and expanded, on programs biased to identical statements in different scopes and parameter/header name collisions; metamorphic removal of a twin statement; GateMemoizer.get cache hits monitored",
+            "reference-model oracle (lexical binding) + monitor on the gate memo table"),
     "C08": ("call histories of the emulator and of parse_jaqal_output_list (readout sequence, per-subcircuit readout lists, frequencies) compared with the reference unrolling; termination judged as a logical step budget counted with sys.monitoring LINE events",
             "history checker against reference unrolling + sys.monitoring step budget"),
+    "C10": ("pass sequences (<=4, with repetition) over expand_subcircuits / fill_in_let(ov) / expand_macros / fill_in_map compared by full reference meaning; idempotence by ==, text and meaning; parser expand_* flags vs pass composition; generated text of every intermediate result re-parsed",
+            "reference-model oracle over generated call sequences"),
     "C12": ("bounded-exhaustive bracket sequences of prepare/measure/gate leaves under loop/block/macro/subcircuit containers judged against a flat-order scan transcribed from the property statement; accepted programs have subcircuit count and states compared",
             "reference acceptance oracle over an enumerated space + state comparison"),
     "C13": ("used-qubit sets of circuits and statements compared with reference reachability; emulator acceptance compared with a reference overlap scan; branch permutations; event log of every merge_into decision",
             "reference-model oracle + event log of merge decisions + metamorphic permutation"),
+    "C14": ("programs with exactly one seeded reference fault (index/bound out of range, non-register source, undefined/duplicate identifier, unknown gate, wrong count/kind, non-integral float; literal / let / override / macro substitution) each with a positive twin; stage-by-stage pipeline observed (parse, fill_in_let, expand_macros, run); gate-set precedence with scratch pulse modules",
+            "fault-seeding workload with twin controls + stage-by-stage outcome monitor"),
     "C15": ("all result views (probabilities, string/int keyed views, readout forms, frequencies) checked against an independent bits(k,n) and plain counting on emulator results, exhaustive outcome lists for n<=6/8 as int and as str, and perturbed probability vectors",
             "invariant monitor over returned result objects"),
+    "C16": ("random strings, truncations, token mutants and semantic-garbage templates through parse_to_sexpression / parse_jaqal_string (random flags) / run_jaqal_circuit under a logical step budget; outcome must be a result, JaqalError (JaqalParseError with a valid position) or a justified ImportError; call histories in fresh interpreter processes compared per text, plus a process-global state fingerprint after every call",
+            "exception-type / position monitor + sys.monitoring step budget + history comparison across fresh processes + global-state fingerprint"),
     "C09": ("expand_subcircuits output compared with reference expansion; execution and output-list parsing compared between the subcircuit spelling and the prepare/measure spelling under the same numpy seed",
             "reference-model oracle + metamorphic execution pairs under a logical step budget"),
 }
